@@ -836,7 +836,7 @@ func c02PredicateFlags(w *World, r *Report) {
 			// used as a branch condition (directly or through && / ||)
 			for _, ref := range *u.Referrers() {
 				if _, isIf := ref.(*ssa.If); isIf {
-					flags[fld.Name()] = true
+					flags[nm(fld)] = true
 				}
 			}
 		}
